@@ -756,6 +756,77 @@ def file_load(ctx, sec_hdr, key, text, idx):
     return a1, a2
 
 
+VALID_LINES = [("setup", "channel width", "20.0"), ("setup", "chip region", "channel"),
+               ("imaging", "pixel size", "0.34"), ("experiment", "sample", "abc def"),
+               ("experiment", "run index", "3"), ("user", "my key", "hello"),
+               ("user", "n", "3"), ("plotting", "kde", "histogram"), ("plotting", "bins", "12")]
+MALFORMED_LINES = ["= 3", " = x", "  =  ", "novalue =", "novalue2 = ''", "just some text", "   ",
+                   "# a comment", "key = # only a comment", "=", "== 2"]
+
+
+def malformed_file_probe(ctx, spec_fail):
+    """Lines without key, without value or without '=' are rejected and not stored: a file with
+    such lines mixed in loads, through both entry points, exactly like the file without them."""
+    _dfn, cfgmod = _mods()
+    rng = ctx.rng
+    for j in range(ctx.n(24, 300)):
+        good = rng.sample(VALID_LINES, rng.randint(1, len(VALID_LINES)))
+        secs = []
+        for sec, _k, _v in good:
+            if sec not in secs:
+                secs.append(sec)
+        clean, dirty, used = [], [], []
+        for sec in secs:
+            clean.append(f"[{sec}]")
+            dirty.append(f"[{sec}]")
+            for s2, k, v in good:
+                if s2 != sec:
+                    continue
+                for _ in range(rng.randint(0, 2)):
+                    bad = rng.choice(MALFORMED_LINES)
+                    dirty.append(bad)
+                    used.append(bad)
+                clean.append(f"{k} = {v}")
+                dirty.append(f"{k} = {v}")
+            if rng.random() < 0.5:
+                bad = rng.choice(MALFORMED_LINES)
+                dirty.append(bad)
+                used.append(bad)
+        pc, pd = ctx.workdir / "mal_clean.cfg", ctx.workdir / "mal_dirty.cfg"
+        pc.write_text("\n".join(clean) + "\n", encoding="utf-8")
+        pd.write_text("\n".join(dirty) + "\n", encoding="utf-8")
+        ctx.case(("malformed", tuple(dirty)), nontrivial=bool(used))
+        ctx.stat("malformed_line_files")
+        for route in ("load_from_file", "Configuration"):
+            def load(path):
+                with warnings.catch_warnings():
+                    warnings.simplefilter("ignore")
+                    if route == "load_from_file":
+                        c = cfgmod.load_from_file(path)
+                    else:
+                        c = cfgmod.Configuration(files=[path])
+                    return {s_: {k_: enc_safe(c[s_][k_]) for k_ in c[s_].keys()} for s_ in c.keys()
+                            if s_ in secs}
+            try:
+                want = load(pc)
+            except Exception as e:  # noqa: the clean file must load; if not, nothing is judged
+                ctx.stat("malformed_probe_clean_file_refused")
+                continue
+            try:
+                got = load(pd)
+            except Exception as e:  # noqa
+                spec_fail.append((f"{route} raises {type(e).__name__} on a configuration file "
+                                  f"with the malformed lines {sorted(set(used))[:4]} (they must be "
+                                  f"rejected and not stored)",
+                                  {"kind": "malformed-file", "lines": dirty, "route": route}))
+                break
+            if got != want:
+                spec_fail.append((f"{route}: malformed lines {sorted(set(used))[:4]} change what is "
+                                  f"loaded: {got} instead of {want}"[:400],
+                                  {"kind": "malformed-file", "lines": dirty, "route": route}))
+                break
+
+
 def clean_text(t):
     """what load_from_file makes of the text right of '='"""
     return t.split("#")[0].strip().strip("' ").strip('" ').strip()
@@ -966,6 +1037,20 @@ def run_replay_case(ctx, rp, attrs=None, verbose=False):
     attrs = attrs or AttrLayer()
     try:
         kind = rp.get("kind", "assign")
+        if kind == "malformed-file":
+            pth = ctx.workdir / "mal_replay.cfg"
+            pth.write_text("\n".join(rp["lines"]) + "\n", encoding="utf-8")
+            try:
+                with warnings.catch_warnings():
+                    warnings.simplefilter("ignore")
+                    if rp.get("route") == "Configuration":
+                        cfgmod.Configuration(files=[pth])
+                    else:
+                        cfgmod.load_from_file(pth)
+            except Exception as e:  # noqa
+                return [f"{rp.get('route')} raises {type(e).__name__} on a configuration file with "
+                        f"malformed lines (they must be rejected and not stored)"]
+            return []
         if kind == "assign":
             v = dec(rp["value"])
             a, ws, _w, fails, info = oracle_assign(rp["sec"], rp["key"], v, attrs, dfn, cfgmod,
@@ -1026,6 +1111,8 @@ def run(ctx):
         for f in run_replay_case(ctx, c, attrs):
             spec_fail.append((f, c))
         ctx.stat("corpus")
+
+    malformed_file_probe(ctx, spec_fail)
 
     # ---- 1. HDF5 type map ---------------------------------------------------------------
     h5_meas = measure_h5(ctx, attrs, lines)
